@@ -25,7 +25,7 @@ for q in names:
 t0=time.time()
 res = discharge(allob, timeout_s=int(__import__('os').environ.get('TO','10')))
 for r in res:
-    if r['verdict'] != 'proved':
+    if r['verdict'] != 'proved' and not (r['expect_sat'] and r['verdict']=='unknown'):
         print(r['verdict'], r['name'], '%.2fs'%r['time'], r['trail'], (str(r['info'])[:600] if r['info'] else ''))
 print(len(res), 'obligations', sum(r['verdict']=='proved' for r in res), 'proved', '%.1fs'%(time.time()-t0))
 for r in sorted(res, key=lambda r: -r['time'])[:8]:
